@@ -1,6 +1,8 @@
 package main
 
 import (
+	"fmt"
+
 	"verifharness/gengram"
 
 	"github.com/alecthomas/participle/v2"
@@ -92,7 +94,35 @@ var staticForbid = map[string][]string{"static-parseable-twice": {"EsAmount2", "
 
 // staticExpect: substrings the String() of a static case must contain
 var staticExpect = map[string][]string{"static-alias": {"<word>", "<number>*", "<ident>?", "<name>?"},
-	"static-parseable-twice": {`"from" EsAmount "to" EsAmount ("step" EsAmount)*`}}
+	"static-parseable-twice": {`"from" EsAmount "to" EsAmount ("step" EsAmount)*`},
+	"static-embedded-3":      {`"public"? "static"? <ident> (":" <int>)? ("," <ident>)*`},
+	"static-forproduction":   {`EsFP = <ident> "=" EsFPSub ("+" <ident>)* .`, `EsFPSub = "(" <ident> ")" .`}}
+
+// three levels of embedding, several tagged fields in the innermost struct
+type esL3 struct {
+	Public bool   `@"public"?`
+	Static bool   `@"static"?`
+	Name   string `@Ident`
+}
+type esL2 struct{ esL3 }
+type esL1 struct {
+	esL2
+	Size int `( ":" @Int )?`
+}
+type esL0 struct {
+	esL1
+	Tail []string `( "," @Ident )*`
+}
+
+// a parser for one production derived from the grammar's parser: the original keeps describing the whole grammar
+type esFPSub struct {
+	X string `"(" @Ident ")"`
+}
+type esFP struct {
+	Head string   `@Ident "="`
+	Sub  *esFPSub `@@`
+	More []string `( "+" @Ident )*`
+}
 
 var staticEbnf = map[string]struct {
 	root string
@@ -103,6 +133,17 @@ var staticEbnf = map[string]struct {
 	"static-anon-rec":        {"EsAnonRec", func() (gengram.Built, error) { return participle.Build[esAnonRec]() }},
 	"static-unicode-names":   {"EsGröße", func() (gengram.Built, error) { return participle.Build[EsGröße]() }},
 	"static-parseable-twice": {"EsTransfer", func() (gengram.Built, error) { return participle.Build[esTransfer]() }},
+	"static-embedded-3":      {"EsL0", func() (gengram.Built, error) { return participle.Build[esL0]() }},
+	"static-forproduction": {"EsFP", func() (gengram.Built, error) {
+		p, err := participle.Build[esFP]()
+		if err != nil {
+			return nil, err
+		}
+		if sub, err := participle.ParserForProduction[esFPSub](p); err != nil || sub == nil {
+			return nil, fmt.Errorf("ParserForProduction: %v", err)
+		}
+		return p, nil
+	}},
 	"static-alias": {"EsAlias", func() (gengram.Built, error) {
 		return participle.Build[esAlias](participle.Lexer(aliasDef{lexer.TextScannerLexer}))
 	}},
